@@ -116,6 +116,14 @@ example : c01 (runHistory natDigest World.init
     (hSkip ++ [.edit inpV2, .invoke false [0] allFail none, .edit inpV1, .invoke false [0] noFail (some 2)])).2 = true := by
   decide
 
+/-- the corner where C02 and the last sentence of C09 pull apart (DESIGN §12): success on v1, a FORCED run on the same v1
+    whose command fails, then a plain run — skipped: the last successful completion was on exactly these inputs (what
+    C02 demands), and the failure recorded nothing (what the run loop's part of C09 says) -/
+example : ((runHistory natDigest World.init
+    (hSkip ++ [.invoke true [0] allFail none, .invoke false [0] noFail none])).2.drop 2)
+    = [.invoke true [0] [(0, .ranFail)] .done .valid, .invoke false [0] [(0, .skipped)] .done .valid] := by
+  rfl
+
 /-- the judge is not trivially true: a fabricated observation with an unjustified skip is rejected -/
 example : c01 [.edit inpV1, .invoke false [0] [(0, .ranOk)] .done .valid, .edit inpV2,
     .invoke false [0] [(0, .skipped)] .done .valid] = false := by decide
